@@ -46,9 +46,10 @@ def placedCmd (src : List Nat) : String :=
   | .error e => s!"ERR parse {repr e}"
   | .ok tree =>
     let p := if placedL false false tree then "T" else "F"
+    let v := if vtokL tree then "T" else "F"
     match transpileAst (genEnv false) tree with
-    | .ok py => s!"placed={p} wf={if PyAst.wfL false false py then "T" else "F"}"
-    | .error e => s!"placed={p} wf=ERR {showTErr e}"
+    | .ok py => s!"placed={p} vtok={v} wf={if PyAst.wfL false false py then "T" else "F"}"
+    | .error e => s!"placed={p} vtok={v} wf=ERR {showTErr e}"
 
 def parseIntS (s : String) : Int := s.toInt?.getD 0
 def parseOptInt (s : String) : Option Int := if s == "N" then none else s.toInt?
